@@ -4,7 +4,7 @@ import vlib, mirrorcheck
 META = {
     "level": "model_checking",
     "text": "Headers in Mirror.tla carry validator-set ids for the height and the next height; TLC checks that the voting/next-round/committing views always use the set the committed chain prescribes (genesis, then the next-set of the header committed one height below) on chains where the application changes keys and powers at every height, with proposals and replayed headers claiming other sets; the behaviours are replayed on a real Mirror and the oracle compares the real views' full validator sets (keys, powers and both hashes) with the set prescribed by what was committed. StateMachine.tla behaviours (incl. crashes and restarts) are replayed on the real state machine with a driver that changes the set at every height: the finalization store must hold exactly what the driver returned and proposed headers must carry the chain's sets.",
-    "note": "Bounded as C01 with three validator sets. Forged validator LISTS under unchanged hashes are a scripted case on the real Mirror (forged copy first / honest copy first / forged ValidatorSet; predicate ListsMatchHashes), because two header values with one block hash cannot be expressed in Mirror.tla's label-per-hash world. State-machine side: the replay harness's driver changes the vote powers at every height; predicates FinalizationStoresDriverSet and ProposesWithChainSets are evaluated on the real state machine (same keys, all powers scaled, so that StateMachine.tla's 3-of-4 thresholds stay valid); StateMachine.tla carries the set ids (curVS/nextVS/finVS, finalization store) and TLC checks C07_SMSets on it; the sets are part of the compared outputs.",
+    "note": "Forged validator LIST cases (scripted, real Mirror): header that changes the set and header that keeps it (next-set hashes equal the current set's), forged copy before/after the honest one, through HandleProposedHeader and through the replayed-header path. Bounded as C01 with three validator sets. Forged validator LISTS under unchanged hashes are a scripted case on the real Mirror (forged copy first / honest copy first / forged ValidatorSet; predicate ListsMatchHashes), because two header values with one block hash cannot be expressed in Mirror.tla's label-per-hash world. State-machine side: the replay harness's driver changes the vote powers at every height; predicates FinalizationStoresDriverSet and ProposesWithChainSets are evaluated on the real state machine (same keys, all powers scaled, so that StateMachine.tla's 3-of-4 thresholds stay valid); StateMachine.tla carries the set ids (curVS/nextVS/finVS, finalization store) and TLC checks C07_SMSets on it; the sets are part of the compared outputs.",
     "technique": "TLA+ spec (Mirror.tla) + TLC exhaustive bounded check + replay on the real Mirror with real-state validator-set comparison",
 }
 
